@@ -175,7 +175,7 @@ impl Toggle {
         let comb = self.cfg.combined;
         let msg = match self.cfg.target {
             Target::PairCp | Target::PairStable => wasm_exec(&self.pool_factory, &factory::ExecuteMsg::UpdatePairConfig { pair_addr: self.pair.clone(), owner: None, fee_collector_addr: if comb { Some(COLLECTOR.into()) } else { None }, pool_fees: if comb { Some(pair::PoolFee { protocol_fee: f[0].clone(), swap_fee: f[1].clone(), burn_fee: f[2].clone() }) } else { None }, feature_toggle: Some(pair::FeatureToggle { withdrawals_enabled: w, deposits_enabled: d, swaps_enabled: s }) }, vec![]),
-            Target::Trio => wasm_exec(&self.pool_factory, &factory::ExecuteMsg::UpdateTrioConfig { trio_addr: self.trio.clone(), owner: None, fee_collector_addr: if comb { Some(COLLECTOR.into()) } else { None }, pool_fees: if comb { Some(trio::PoolFee { protocol_fee: f[0].clone(), swap_fee: f[1].clone(), burn_fee: f[2].clone() }) } else { None }, feature_toggle: Some(trio::FeatureToggle { withdrawals_enabled: w, deposits_enabled: d, swaps_enabled: s }), amp_factor: None }, vec![]),
+            Target::Trio => wasm_exec(&self.pool_factory, &factory::ExecuteMsg::UpdateTrioConfig { trio_addr: self.trio.clone(), owner: None, fee_collector_addr: if comb { Some(COLLECTOR.into()) } else { None }, pool_fees: if comb { Some(trio::PoolFee { protocol_fee: f[0].clone(), swap_fee: f[1].clone(), burn_fee: f[2].clone() }) } else { None }, feature_toggle: Some(trio::FeatureToggle { withdrawals_enabled: w, deposits_enabled: d, swaps_enabled: s }), amp_factor: if comb { Some(trio::RampAmp { future_a: if bits == 7 { 100 } else { 150 + bits as u64 }, future_block: height(&self.app) + 10_000 + bits as u64 }) } else { None } }, vec![]),
             Target::Vault => {
                 if let Some(order) = self.cfg.partial_order {
                     // three partial updates, one flag each; an update must not touch the other flags
